@@ -357,12 +357,15 @@ def run(ctx):
     except Exception as e:
         terr = "%s: %s" % (type(e).__name__, e)
     proof_ok, log = (False, "translator: " + terr) if terr else ctx.prove(["Bee2V.C12.Props"], PROPS)
+    ctx.cov["t_prove_s"] = round(__import__("time").time() - ctx.t0, 1)
     exes = {"asan": ctx.cc("harness/c12.c", "asan"), "w32": ctx.cc("harness/c12.c", "w32")}
     std, bels = C12_val.load_std(lambda lines: ctx.run_lines(exes["asan"], lines)[0])
     ops = generate(ctx, std, bels)
     o64, o32 = route(ops)
     have_drv = os.path.exists(ctx.driver())
     results = []   # (op, impl, model)
+    import time
+    ctx.cov["t_generate_s"] = round(time.time() - ctx.t0, 1)
     for cfg, lst, label in (("asan", o64, "w64"), ("w32", o32, "w32")):
         if not lst:
             continue
@@ -375,6 +378,7 @@ def run(ctx):
             l_out = [None] * len(c_out)
         for i, o in enumerate(lst[:len(c_out)]):
             results.append((o, c_out[i], l_out[i] if i < len(l_out) else None))
+    ctx.cov["t_diff_done_s"] = round(time.time() - ctx.t0, 1)
     # ---- search oracle: implementation vs independent recomputation
     bad_oracle, bad_model = collections.OrderedDict(), collections.OrderedDict()
     kl = collections.Counter()
